@@ -43,6 +43,11 @@ RefApply(o, T) ==
     [] o.name = "substitute_terminals" -> SubstituteTerminals(T, o.rows)
     [] OTHER -> T
 
+\* documented prerequisites (the properties quantify over prerequisite-respecting calls only)
+PrereqOK(o, A) ==
+  CASE o.name = "boyd_split" -> HeadsMarked(A) /\ OneHead(A)
+    [] o.name = "raising" -> \A x \in A.nodes : x.a.split \in {"T", "F"}
+    [] OTHER -> TRUE
 RetRootOps == Structural \cup {"punctuation_delete", "ptb_delete_traces", "insert_terminals",
                                "substitute_terminals"}
 \* expected exceptions (the property says "rejected")
@@ -52,7 +57,8 @@ MustRaise(o, A) ==
 
 StepErrs(e, A, m2) ==
   LET o == OpOf(e) IN
-  IF e.res = "exc" THEN
+  IF ~PrereqOK(o, A) THEN {}
+  ELSE IF e.res = "exc" THEN
      IF MustRaise(o, A) THEN {}
      ELSE {(IF o.name \in Structural THEN "C04" ELSE "C11") \o ".raised." \o e.a}
   ELSE IF o.name = "filter_by_length" THEN
@@ -74,7 +80,7 @@ StepErrs(e, A, m2) ==
     (IF wf = {} THEN Clauses(o, A, Abs(e.post), m2, Case.wc) ELSE {})
 
 Fidelity(e, A) ==
-  IF e.res = "ok" /\ WF(e.post) /\ StripIds(Abs(e.post)) # StripIds(RefApply(OpOf(e), A))
+  IF e.res = "ok" /\ WF(e.post) /\ PrereqOK(OpOf(e), A) /\ StripIds(Abs(e.post)) # StripIds(RefApply(OpOf(e), A))
   THEN {e.a} ELSE {}
 
 TInit == /\ tid \in 1..Len(Cases) /\ l = 0 /\ done = FALSE
@@ -85,7 +91,7 @@ TInit == /\ tid \in 1..Len(Cases) /\ l = 0 /\ done = FALSE
 TStep == /\ ~done /\ l < Len(Case.events) /\ WF(cur)
          /\ LET e == Case.events[l + 1]
                 A == Abs(cur)
-                m2 == MemNext(OpOf(e), A, mem)
+                m2 == IF PrereqOK(OpOf(e), A) THEN MemNext(OpOf(e), A, mem) ELSE Mem0
             IN /\ errs' = errs \cup {<<c, l + 1>> : c \in StepErrs(e, A, m2)}
                /\ fid' = fid \cup {<<f, l + 1>> : f \in Fidelity(e, A)}
                /\ mem' = m2
